@@ -20,13 +20,19 @@ BASE = {
     "no_commands": False, "second_file": False, "private_field_type": "u32", "crate_field": False,
     "cmd_rename_all": None, "param_serde_rename": None, "status_serde": True, "channel_name": "on_progress", "validator_range": None, "second_struct_field": "i32",
     "notice_min": 3, "notice_level": "i32", "notice_nested": "u8", "tm_targets": ("string", "string"),
-    "same_name_field_rename": False, "same_name_variant_rename": False, "no_events": False, "second_emit_site": True, "cmds_swapped": False,
+    "same_name_field_rename": False, "same_name_variant_rename": False, "no_events": False, "second_emit_site": True, "cmds_swapped": False, "legacy_file": True,
+    "ret_map_value": "u32", "ret_tuple_second": "String",
 }
 
 # edit classes: name -> function(state) (toggles, so that sequences compose); "affects": None=always, "zod"=only visible in zod mode
 EDITS = [
     ("add-remove-command", lambda s: s.update(cmd_extra=not s["cmd_extra"])),
     ("swap-two-commands-in-their-file", lambda s: s.update(cmds_swapped=not s["cmds_swapped"])),
+    # a whole source file with a command of its own disappears / comes back (all other files keep their modification times)
+    ("delete-restore-a-source-file-with-a-command", lambda s: s.update(legacy_file=not s["legacy_file"])),
+    # the change sits behind the first comma of the Ok type of a Result
+    ("result-ok-map-value-type", lambda s: s.update(ret_map_value="String" if s["ret_map_value"] == "u32" else "u32")),
+    ("result-ok-tuple-second-slot", lambda s: s.update(ret_tuple_second="bool" if s["ret_tuple_second"] == "String" else "String")),
     ("rename-command", lambda s: s.update(cmd_name="fetch_user" if s["cmd_name"] == "get_user" else "get_user")),
     ("parameter-name", lambda s: s.update(param_name="uid" if s["param_name"] == "user_id" else "user_id")),
     ("parameter-type", lambda s: s.update(param_type="String" if s["param_type"] == "i32" else "i32")),
@@ -128,6 +134,8 @@ def render(s):
         cmds += (second + first) if s["cmds_swapped"] else (first + second)
         if s["cmd_extra"]:
             cmds += rg.command_src("extra_cmd", [("flag", "bool")], "Status")
+        cmds += rg.command_src("usage_by_day", [("year", "u16")], "Result<HashMap<String, %s>, String>" % s["ret_map_value"])
+        cmds += rg.command_src("first_and_note", [], "Result<(u32, %s), String>" % s["ret_tuple_second"])
     ev = "pub fn notify(app: AppHandle, payload: %s) {\n    %sapp.emit(\"%s\", payload).unwrap();\n}\n\n" % (s["event_payload"], "// " if s["no_events"] else "", s["event_name"])
     if s["second_emit_site"] and not s["no_events"]:
         ev += "pub fn notify_again(app: AppHandle, addr: Address) {\n    app.emit(\"%s\", addr).unwrap();\n}\n\n" % s["event_name"]
@@ -139,9 +147,10 @@ def render(s):
     if s["event_extra"] and not s["no_events"]:
         ev += "pub fn notify2(app: AppHandle) {\n    app.emit(\"tick\", 1).unwrap();\n}\n\n"
     hdr = rg.PRELUDE + "use std::path::PathBuf;\nuse tauri::{AppHandle, Emitter, ipc::Channel};\nuse validator::Validate;\n\n" + "// noise\n" * s["noise"]
+    legacy = [("legacy/export.rs", rg.PRELUDE + rg.command_src("legacy_export", [("format", "String")], "Vec<u8>"))] if s["legacy_file"] and not s["no_commands"] else []
     if s["second_file"]:
-        return [("lib.rs", hdr + user + cmds + ev), ("models/status.rs", rg.PRELUDE + status)]
-    return [("lib.rs", hdr + user + status + cmds + ev)]
+        return [("lib.rs", hdr + user + cmds + ev), ("models/status.rs", rg.PRELUDE + status)] + legacy
+    return [("lib.rs", hdr + user + status + cmds + ev)] + legacy
 
 
 def config_of(s, src, out):
@@ -154,8 +163,25 @@ def config_of(s, src, out):
 
 def write_state(root, s, path, absolute=False):
     src = os.path.join(root, "src-tauri")
-    common.rmtree(src)
-    common.write_tree(src, render(s))
+    # like an editor: files whose text is unchanged keep their modification time, files that are gone are removed
+    wanted = dict(render(s))
+    if os.path.isdir(src):
+        for dp, _dn, fn in os.walk(src):
+            for f in fn:
+                rel = os.path.relpath(os.path.join(dp, f), src)
+                if rel not in wanted:
+                    os.unlink(os.path.join(dp, f))
+    changed = []
+    for rel, text in wanted.items():
+        fp = os.path.join(src, rel)
+        try:
+            if open(fp, encoding="utf-8").read() == text:
+                continue
+        except OSError:
+            pass
+        changed.append((rel, text))
+    common.write_tree(src, changed)
+    os.makedirs(src, exist_ok=True)
     out = os.path.join(root, "gen")
     if path == "cli":
         json.dump(config_of(s, src, out), open(os.path.join(root, "cfg.json"), "w"))
